@@ -1,5 +1,191 @@
 import Driver.Proto
+import TonicModel.Basic.HealthTypes
+import TonicModel.Basic.HealthLin
+import TonicModel.Model.Health
+import TonicModel.Spec.Health
 namespace DriverC18
-/-- stub: property not yet claimed -/
-def handle (_case _obs : List String) : String × String := ("unclaimed", "fail:unclaimed")
+open Proto Health
+
+/-- `NamedService::NAME` of `HealthServer<_>`: "grpc.health.v1.Health". -/
+def svcName : Name := "grpc.health.v1.Health".toUTF8.toList
+
+def stOf : String → Option St
+  | "0" => some .unknown
+  | "1" => some .serving
+  | "2" => some .notServing
+  | _ => none
+
+def stTok : St → String
+  | .unknown => "0"
+  | .serving => "1"
+  | .notServing => "2"
+
+/-- Flat op tokens → ops; handle tokens (which reporter / client clone) are checked to be
+numbers and otherwise ignored: all clones share one table. -/
+def parseOps : Nat → List String → Option (List Op)
+  | 0, _ => none
+  | _, [] => some []
+  | f + 1, "s" :: r :: n :: st :: rest => do
+    let _ ← nat? r; let n ← unhex n; let st ← stOf st
+    (Op.set n st :: ·) <$> parseOps f rest
+  | f + 1, "sv" :: r :: rest => do
+    let _ ← nat? r
+    (Op.set svcName .serving :: ·) <$> parseOps f rest
+  | f + 1, "nsv" :: r :: rest => do
+    let _ ← nat? r
+    (Op.set svcName .notServing :: ·) <$> parseOps f rest
+  | f + 1, "c" :: r :: n :: rest => do
+    let _ ← nat? r; let n ← unhex n
+    (Op.clear n :: ·) <$> parseOps f rest
+  | f + 1, "k" :: r :: n :: rest => do
+    let _ ← nat? r; let n ← unhex n
+    (Op.check n :: ·) <$> parseOps f rest
+  | f + 1, "w" :: r :: n :: rest => do
+    let _ ← nat? r; let n ← unhex n
+    (Op.watch n :: ·) <$> parseOps f rest
+  | f + 1, "n" :: w :: rest => do
+    let w ← nat? w
+    (Op.next w :: ·) <$> parseOps f rest
+  | f + 1, "d" :: w :: rest => do
+    let w ← nat? w
+    (Op.drop w :: ·) <$> parseOps f rest
+  | _, _ => none
+
+def respTok : Resp → String
+  | .done => "ok"
+  | .status s => "st" ++ stTok s
+  | .notFound => "nf"
+  | .subscribed => "sub"
+  | .value s => "v" ++ stTok s
+  | .pending => "pend"
+  | .ended => "end"
+  | .noWatcher => "now"
+
+def respOf : String → Option Resp
+  | "ok" => some .done
+  | "st0" => some (.status .unknown)
+  | "st1" => some (.status .serving)
+  | "st2" => some (.status .notServing)
+  | "nf" => some .notFound
+  | "sub" => some .subscribed
+  | "v0" => some (.value .unknown)
+  | "v1" => some (.value .serving)
+  | "v2" => some (.value .notServing)
+  | "pend" => some .pending
+  | "end" => some .ended
+  | "now" => some .noWatcher
+  | _ => none
+
+/-- First clause of the property that an observed trace (oldest first) breaks. -/
+def firstBroken (h : Hist) : List Ev → Option String
+  | [] => none
+  | (op, r) :: t =>
+    match (Spec.Health.clauses h op r).find? (fun c => !c.2) with
+    | some c => some c.1
+    | none => firstBroken ((op, r) :: h) t
+
+def handleSeq (ops : List Op) (obs : List String) : String × String :=
+  let rs := Health.run Health.init ops
+  let model := String.intercalate " " (rs.map respTok)
+  let verdict :=
+    if obs == ["panic"] then "fail:panic"
+    else match obs.mapM respOf with
+      | none => "fail:unrecognised-answer"
+      | some ors =>
+        if ors.length != ops.length then "fail:answer-count"
+        else match firstBroken [] (ops.zip ors) with
+          | some c => "fail:" ++ c
+          | none => "ok"
+  (model, verdict)
+
+/-! concurrent histories -/
+
+def splitBar : List String → List (List String)
+  | [] => [[]]
+  | "|" :: rest => [] :: splitBar rest
+  | t :: rest => match splitBar rest with
+    | [] => [[t]]
+    | g :: gs => (t :: g) :: gs
+
+/-- observed records `tid inv res answer` -/
+def parseRecs : Nat → List String → Option (List (Nat × Nat × Nat × Resp))
+  | 0, _ => none
+  | _, [] => some []
+  | f + 1, t :: i :: r :: a :: rest => do
+    let t ← nat? t; let i ← nat? i; let r ← nat? r; let a ← respOf a
+    ((t, i, r, a) :: ·) <$> parseRecs f rest
+  | _, _ => none
+
+/-- Pairs a task's program with its records; records beyond the program are the final drain
+(`next` on the task's stream, issued after every task has finished its program).
+
+Windows.  Deliveries and ends may have been read ahead by the encoder during an earlier poll of
+the same stream, so their window opens when the subscription returned.
+
+`pend` answers.  A poll that finds the stream's `changed()` future parked on its `Notify` does
+not re-read the channel version; it answers "pending" until the notification arrives, and
+tokio delivers the notifications of one `send` to different receivers at different moments
+(`watch` spreads receivers over several `Notify` cells and walks them in turn, after bumping
+the version).  So while updates are in flight a `pend` only says "no wake-up yet", not "no
+update yet", and is no evidence about the order of operations: a `pend` whose window overlaps
+the window of any `set`/`clear` call (`upd`) is left out of the search.  A `send` returns only
+after its wake-ups have been delivered, so every other `pend` — in particular every one in the
+final drain — is a real answer and is kept, in its own window. -/
+def mkCalls (upd : List (Nat × Nat)) : List Op → List (Nat × Nat × Resp) → Nat → List Lin.Call
+  | _, [], _ => []
+  | ops, (i, r, a) :: recs, subAt =>
+    let (op, ops') := match ops with
+      | [] => (Op.next 0, [])
+      | o :: os => (o, os)
+    let inv := match op, a with
+      | .next _, .pending => i
+      | .next _, _ => min i subAt
+      | _, _ => i
+    let subAt' := match op with
+      | .watch _ => r
+      | _ => subAt
+    let skip := match op, a with
+      | .next _, .pending => upd.any (fun u => u.1 < r && i < u.2)
+      | _, _ => false
+    if skip then mkCalls upd ops' recs subAt'
+    else ⟨op, inv, r, a⟩ :: mkCalls upd ops' recs subAt'
+
+def handleConc (progs : List (List Op)) (obs : List String) : String × String :=
+  if obs == ["panic"] then ("not-linearizable", "fail:panic")
+  else match parseRecs (obs.length + 1) obs with
+    | none => ("not-linearizable", "fail:unrecognised-answer")
+    | some recs =>
+      -- windows of all update calls, over all tasks
+      let upd : List (Nat × Nat) := (progs.zipIdx).flatMap (fun (ops, tid) =>
+        let mine := (recs.filter (fun x => x.1 == tid)).map (·.2)
+        (ops.zip mine).filterMap (fun (op, (i, r, _)) => match op with
+          | .set _ _ => some (i, r)
+          | .clear _ => some (i, r)
+          | _ => none))
+      let tasks : List Lin.Task := (progs.zipIdx).map (fun (ops, tid) =>
+        let mine := (recs.filter (fun x => x.1 == tid)).map (·.2)
+        ⟨mkCalls upd ops mine 0, Lin.noSlot⟩)
+      let short := (progs.zipIdx).any (fun (ops, tid) =>
+        (recs.filter (fun x => x.1 == tid)).length < ops.length)
+      if short then ("not-linearizable", "fail:answer-count")
+      else
+        let m := Lin.linearizable Health.accept (fun s => s.watchers.length) Health.init tasks
+        let v := Lin.linearizable Spec.Health.accept Spec.Health.numWatches [] tasks
+        -- a search that ran out of budget decides nothing (neither a disagreement nor a failure)
+        (if m == .no then "not-linearizable" else String.intercalate " " obs,
+         if v == .no then "fail:not-linearizable" else "ok")
+
+def handle (case obs : List String) : String × String :=
+  match case with
+  | "seq" :: rest =>
+    match parseOps (rest.length + 1) rest with
+    | none => bad
+    | some ops => handleSeq ops obs
+  | "conc" :: seed :: rest =>
+    match nat? seed, (splitBar rest).mapM (fun p => parseOps (p.length + 1) p) with
+    | some _, some progs =>
+      if (progs.drop 1).all (·.isEmpty) then bad else handleConc progs obs
+    | _, _ => bad
+  | _ => bad
+
 end DriverC18
